@@ -25,6 +25,19 @@ def trepr(v):
     return t.__name__ + ':' + repr(v)
 
 
+def trepr_unordered(v):
+    """Type-exact repr that ignores dict key order (JSON objects are unordered;
+    the cache file is written with sorted keys)."""
+    t = type(v)
+    if t is dict:
+        return '{' + ','.join(sorted(trepr(k) + ':' + trepr_unordered(x) for k, x in v.items())) + '}'
+    if t is list:
+        return '[' + ','.join(trepr_unordered(x) for x in v) + ']'
+    if t is tuple:
+        return '(' + ','.join(trepr_unordered(x) for x in v) + ')'
+    return trepr(v)
+
+
 def canonform(v):
     """Independent canonical form of JSON equality: tagged tree, numbers as
     exact fractions, dicts as frozensets, lists == tuples, bool != number."""
